@@ -717,6 +717,7 @@ func typedAPI(repM, repU *Report, wM, wU *CaseWriter, r *rand.Rand, thorough boo
 	apiHookKeyOrder(repM, repU, r)
 	apiInterleavedTaps(repM)
 	apiCtxBuilders(repM, repU)
+	apiRound8Typed(repM, repU)
 	apiUnmarshalSinkReuse(repU)
 	apiRound7Typed(repM, repU)
 	apiKeysNaNAndCycles(repM, "C08")
@@ -2850,5 +2851,196 @@ func apiEncodeBesideUnmarshal(rep *Report) {
 				rep.violate("C02", "roundtrip", what, "stream=["+descTokens(c.ts)+"]")
 			}
 		}
+	}
+}
+
+// ---- round 8 ----
+
+// an SBMarshaler that nests its content as a stream of its own under the context it was handed
+type ctxBox struct{ P *ctxBoxNode }
+type ctxBoxNode struct {
+	Name string
+	Box  ctxBox
+}
+
+func (b ctxBox) MarshalSB(ctx sb.Ctx, cont sb.Proc) sb.Proc {
+	return sb.IterStream(sb.MarshalCtx(ctx, b.P), cont)
+}
+
+func apiCyclesThroughNestedStreams(rep *Report) {
+	one := &ctxBoxNode{Name: "a"}
+	one.Box.P = one
+	a, b, c := &ctxBoxNode{Name: "a"}, &ctxBoxNode{Name: "b"}, &ctxBoxNode{Name: "c"}
+	a.Box.P, b.Box.P, c.Box.P = b, c, a
+	head := &ctxBoxNode{Name: "head", Box: ctxBox{P: &ctxBoxNode{Name: "mid", Box: ctxBox{P: a}}}}
+	var chain *ctxBoxNode
+	for i := 0; i < 1500; i++ {
+		chain = &ctxBoxNode{Name: "n", Box: ctxBox{P: chain}}
+	}
+	for name, c := range map[string]struct {
+		v      any
+		cyclic bool
+	}{"node -> box (nested MarshalCtx stream) -> node": {one, true}, "a cycle of three boxes entered after a prefix": {head, true}, "an acyclic chain of 1500 boxes": {chain, false}} {
+		for _, opt := range []bool{false, true} {
+			var err error
+			n := 0
+			var leaked int
+			e := withWatchdog(20*time.Second, &leaked, func() error {
+				return guard(func() error {
+					var s sb.Stream
+					if opt {
+						s = sb.MarshalCtx(sb.DefaultCtx.SkipEmpty(), c.v)
+					} else {
+						s = sb.Marshal(c.v)
+					}
+					for n = 0; n < 2_000_000; n++ {
+						var t sb.Token
+						if err = s.Next(&t); err != nil || t.Invalid() {
+							return nil
+						}
+					}
+					return errDiverge
+				})
+			})
+			rep.Evaluations++
+			rep.count("api:cycles-through-nested-streams")
+			switch {
+			case classOf(e) == "EDiverge":
+				rep.violate("C18", "marshal-diverges", fmt.Sprintf("more than %d tokens without an end", n), name)
+			case c.cyclic && (e != nil || classOf(err) != "ECyclic"):
+				rep.violate("C18", "cycle-not-reported", fmt.Sprintf("Marshal returned %v (%v) after %d tokens, expected a CyclicPointer marshal error", err, e, n), name)
+			case !c.cyclic && (e != nil || err != nil):
+				rep.violate("C18", "acyclic-rejected", fmt.Sprintf("an acyclic value failed to marshal: %v %v", err, e), name)
+			}
+		}
+	}
+}
+
+// FilterProc over combinators that fail AFTER the token variable was filled
+func apiFilterOverFaults(rep *Report) {
+	ts := []sb.Token{tokK(sb.KindArray), tokI(1), {Kind: sb.KindRef, Value: []byte("h")}, tokI(2), tokK(sb.KindArrayEnd)}
+	keep := func(*sb.Token) bool { return true }
+	for k := 1; k <= len(ts); k++ {
+		calls := 0
+		var failing sb.Sink
+		failing = func(t *sb.Token) (sb.Sink, error) {
+			calls++
+			if calls == k {
+				return nil, errInjected
+			}
+			return failing, nil
+		}
+		got, err := collect(sb.FilterProc(sb.Tee(tokensFrom(ts), failing), keep))
+		rep.Evaluations++
+		rep.count("api:filter-over-faults")
+		if classOf(err) != "EFault" {
+			rep.violate("C15", "stream-fault-lost", fmt.Sprintf("FilterProc over a Tee whose side sink fails at its call %d: %d tokens and %v, the fault must surface", k, len(got), err), "FilterProc(Tee(src, failing sink))")
+		}
+	}
+	got, err := collect(sb.FilterProc(sb.Deref(tokensFrom(ts), func([]byte) (sb.Stream, error) { return nil, errInjected }), keep))
+	if classOf(err) != "EFault" {
+		rep.violate("C15", "stream-fault-lost", fmt.Sprintf("FilterProc over a Deref whose resolver fails: %d tokens and %v, the fault must surface", len(got), err), "FilterProc(Deref(failing resolver))")
+	}
+	// truncated input under a Tee: the side sink sees exactly what the decoder delivers alone
+	valid := runEncode([]sb.Token{tokK(sb.KindArray), tokS("a string"), tokI(5), {Kind: sb.KindBytes, Value: []byte("blob")}, tokK(sb.KindArrayEnd)}, 0, 0).bytes
+	for cut := 1; cut < len(valid); cut++ {
+		for _, cmp := range []bool{false, true} {
+			mk := func() sb.Stream {
+				if cmp {
+					return sb.DecodeForCompare(bytes.NewReader(valid[:cut]))
+				}
+				return sb.Decode(bytes.NewReader(valid[:cut]))
+			}
+			alone, aErr := collect(mk())
+			var side []sb.Token
+			var rec sb.Sink
+			rec = func(t *sb.Token) (sb.Sink, error) {
+				if t.Invalid() {
+					return nil, nil
+				}
+				side = append(side, *t)
+				return rec, nil
+			}
+			main, tErr := collect(sb.Tee(mk(), rec))
+			rep.Evaluations++
+			if classOf(aErr) != classOf(tErr) || !tokensExactEq(main, alone) || len(side) > len(alone) || !tokensExactEq(side, alone[:len(side)]) || len(side)+1 < len(alone) {
+				what := fmt.Sprintf("input cut at byte %d (compare decoder %v): alone %d tokens (%v); under a Tee the consumer gets %d (%v) and the side sink [%s]", cut, cmp, len(alone), aErr, len(main), tErr, truncate(descTokens(side), 200))
+				rep.violate("C04", "truncation-wrong-tokens", what, fmt.Sprintf("Tee(Decode(%x), recorder)", valid[:cut]))
+				rep.violate("C15", "fault-prefix", what, fmt.Sprintf("Tee(Decode(%x), recorder)", valid[:cut]))
+				rep.violate("C14", "tee-side-sink-delivery", what, fmt.Sprintf("Tee(Decode(%x), recorder)", valid[:cut]))
+			}
+		}
+	}
+}
+
+// one `any` variable as the target of two decodes in a row; sentinel tokens as struct members under skip-empty
+type RegHolder struct {
+	Tags []string
+	M    map[string]int
+}
+
+func apiRound8Typed(repM, repU *Report) {
+	pt := reflect.TypeOf((*RegHolder)(nil))
+	sb.Register(pt)
+	v1 := &RegHolder{Tags: []string{"a", "b"}, M: map[string]int{"x": 1}}
+	v2 := &RegHolder{Tags: []string{"c"}, M: map[string]int{"y": 2}}
+	ts1, _ := marshalTokens(v1, nil)
+	ts2, _ := marshalTokens(v2, nil)
+	var slot any
+	e1 := guard(func() error { return copyBudget(tokensFrom(ts1), sb.Unmarshal(&slot)) })
+	e2 := guard(func() error { return copyBudget(tokensFrom(ts2), sb.Unmarshal(&slot)) })
+	var fresh any
+	guard(func() error { return copyBudget(tokensFrom(ts2), sb.Unmarshal(&fresh)) })
+	repU.Evaluations += 3
+	repU.count("api:any-slot-reuse")
+	got, _ := marshalTokens(slot, nil)
+	want, _ := marshalTokens(fresh, nil)
+	if e1 != nil || e2 != nil || !tokensExactEq(got, want) || !tokensExactEq(want, ts2) {
+		what := fmt.Sprintf("an `any` variable that already holds a value of a registered pointer type, used for the next decode: holds [%s] (%v %v), a fresh variable gives [%s]", truncate(descTokens(got), 200), e1, e2, truncate(descTokens(want), 200))
+		repU.violate("C11", "any-not-lossless", what, "any slot reused")
+		repU.violate("C05", "sink-reuse-differs", what, "any slot reused")
+	}
+	// sentinel tokens are not empty
+	type bound struct {
+		Shard int
+		T     sb.Token
+	}
+	for _, tok := range []sb.Token{sb.Min, sb.Max, sb.Nil, sb.NaN} {
+		skip := mkCtx(true, false)
+		ts, err := marshalTokens(bound{Shard: 3, T: tok}, &skip)
+		repM.Evaluations++
+		want := []sb.Token{tokK(sb.KindObject), tokS("Shard"), tokI(3), tokS("T"), tok, tokK(sb.KindObjectEnd)}
+		if err != nil || !tokensExactEq(ts, want) {
+			repM.violate("C16", "skip-empty-drops-non-empty", fmt.Sprintf("under skip-empty a struct member holding the token %s marshals to [%s] (%v), expected [%s]", descToken(tok), descTokens(ts), err, descTokens(want)), "sentinel token as a struct member")
+			repM.violate("C06", "not-the-documented-order", fmt.Sprintf("a bound {shard, %s} marshalled under skip-empty loses its sentinel: [%s]", descToken(tok), descTokens(ts)), "sentinel token as a struct member")
+			repM.violate("C08", "skip-empty-drops-non-empty", fmt.Sprintf("under skip-empty a struct member holding the token %s marshals to [%s]", descToken(tok), descTokens(ts)), "sentinel token as a struct member")
+		}
+	}
+	// IgnoreFuncs + map keys that are pointers to structs holding funcs: the stream is a function of the content
+	type fk struct {
+		F func() int
+		N int
+	}
+	k1, k2, k3 := &fk{func() int { return 1 }, 2}, &fk{func() int { return 5 }, 1}, &fk{nil, 3}
+	m := map[*fk]string{k1: "a", k2: "b", k3: "c"}
+	ig := sb.Ctx{IgnoreFuncs: true, Marshal: sb.MarshalValue}
+	first, err := collectN(sb.MarshalCtx(ig, m), 1000)
+	stable := err == nil
+	for i := 0; stable && i < 30; i++ {
+		m2 := map[*fk]string{}
+		for _, k := range []*fk{k3, k1, k2}[i%3:] {
+			m2[k] = m[k]
+		}
+		for k, x := range m {
+			m2[k] = x
+		}
+		again, e := collectN(sb.MarshalCtx(ig, m2), 1000)
+		if e != nil || !tokensExactEq(first, again) {
+			stable = false
+		}
+	}
+	repM.Evaluations += 30
+	if !stable {
+		repM.violate("C08", "not-deterministic", fmt.Sprintf("a map keyed by pointers to structs holding funcs, marshalled under IgnoreFuncs, gives different streams for the same content (first [%s], %v)", truncate(descTokens(first), 200), err), "IgnoreFuncs + func-holding pointer keys")
 	}
 }
